@@ -50,6 +50,28 @@ def chi2_sum(es, ghost_s, ghost):
         ghost.s = saved
 
 
+def chi2_sum_raw(es, ghost_s, ghost):
+    """Sum of the UNSCALED opaque chi2 symbols of the cut edges at ghost state ghost_s."""
+    saved = ghost.s
+    ghost.s = ghost_s
+    try:
+        tot = 0
+        for e in es:
+            tot = tot + type(e)._chi2(e)
+        return tot
+    finally:
+        ghost.s = saved
+
+
+def must_rel(c_prev, c_new, tol, floor=Fraction(1, 10 ** 15)):
+    """Scale-free reading of the band: only the guard eps = 2^-52 in the denominator is absolute; it matters below ~1e-7."""
+    return (c_prev >= Fraction(1, 10 ** 6)) & (c_new <= c_prev) & (c_prev - c_new < (1 - KAPPA) * tol * c_prev - KAPPA * tol * c_prev)
+
+
+def may_rel(c_prev, c_new, tol):
+    return (c_new <= c_prev) & ((c_prev < Fraction(1, 10 ** 6)) | (c_prev - c_new <= (1 + KAPPA) * tol * c_prev + KAPPA * tol * c_prev))
+
+
 def must(c_prev, c_new, tol):
     return (c_prev >= PHI) & (c_new <= c_prev) & (c_prev - c_new < (1 - KAPPA) * tol * c_prev - KAPPA * tol)
 
@@ -148,8 +170,16 @@ def obligations(r, tier, seed):
             if len(split) < 2 or (tier == "quick" and len(split) > 2 and n > 3):
                 continue
             def splitting(k, n=n, split=split):
+                # The clause is about hidden state, not about the stopping rule: the chi2 sequence is taken generic (above the
+                # absolute floor of the eps guard, no two consecutive values exactly equal), so that with tol = 0 no reading of
+                # the rule -- '<' or '<=', '+eps' or '-eps' -- stops early.
                 ghost_a = common.Ghost()
                 ga, esa, vsa = make_graph(k, ghost_a, 2)
+                cs = [chi2_sum(esa, i, ghost_a) for i in range(n + 1)]
+                for i in range(n + 1):
+                    k.assume(cs[i] >= Fraction(1, 10 ** 6), "chi2 above the absolute floor of the eps guard")
+                    if i:
+                        k.assume((cs[i] - cs[i - 1] > 0) | (cs[i] - cs[i - 1] < 0), "consecutive chi2 values differ")
                 with common.counting_spsolve(k, ghost_a):
                     ra = ga.optimize(tol=0, max_iter=n, verbose=False)
                 ghost_b = common.Ghost()
